@@ -23,7 +23,7 @@ EXPLANATION = (
     "C03.12 insert_large_chunk clears both child pointers of the inserted chunk on every path (also for a chunk that only joins a same-size ring). "
     "C03.13 a chunk found by its address is unlinked only after it was compared with dv (and top, for a following chunk) and found free; C03.14 the two directions of a chunk link (next/prev, child/parent) are written together. "
     "C03.15 every split / no-split decision compares the remainder with MIN_CHUNK_SIZE. C03.16 sys_alloc extends top in place only for the segment that holds top. C03.17 replace_dv is called only on the small-request paths. C03.18 release_unused_segments does not carry a released segment's record forward as predecessor. "
-    "NOT decided: alignment, disjointness and intactness of live blocks - invariants of the bin/tree/segment shape over call histories (the module's own check_malloc_state is a run-time checker); no structural rule in reach establishes them.")
+    "C03.19 a head written as `size | PINUSE` (free, no foot) belongs to the chunk the same function makes top; C03.20 add_segment places the old segment's record at old_top or at least MIN_CHUNK_SIZE above it. NOT decided: alignment, disjointness and intactness of live blocks - invariants of the bin/tree/segment shape over call histories (the module's own check_malloc_state is a run-time checker); no structural rule in reach establishes them.")
 ASSUMPTIONS = ["dlmalloc's heap-shape invariants hold (not established here)", "MUNMAP returns 0 or -errno"]
 
 D = "tiny_std::allocator::dlmalloc::"
